@@ -39,7 +39,7 @@ def candidates(path, lo, hi):
     out = []
     in_tests = False
     for i, l in enumerate(lines):
-        if re.match(r"\s*#\[cfg\(test\)\]", l) or re.match(r"\s*mod tests?\b", l):
+        if re.match(r"\s*(pub(\([a-z]+\))?\s+)?mod tests?\b", l):
             in_tests = True
         if in_tests: break
         if not (lo <= i + 1 <= hi): continue
